@@ -836,6 +836,14 @@ def _increment_multivariate_gaussian_cov(X, m, S, n, bias=0):
     return new_m, new_S
 
 
+def _as_floating(data):
+    # Integer samples would be subtracted and multiplied in their own
+    # (possibly narrow or unsigned) dtype, which wraps around silently.
+    if not np.issubdtype(data.dtype, np.floating):
+        data = data.astype(np.float64)
+    return data
+
+
 class GMRFVectorModel(object):
     r"""
     Trains a Gaussian Markov Random Field (GMRF).
@@ -1009,7 +1017,7 @@ class GMRFVectorModel(object):
             # Make sure we have an array, slice of the number of requested
             # samples
             data = np.array(data)[:n_samples]
-        return data, n_samples
+        return _as_floating(data), n_samples
 
     def mean(self):
         r"""
@@ -1049,6 +1057,7 @@ class GMRFVectorModel(object):
         self._increment(data=data, verbose=verbose)
 
     def _increment(self, data, verbose):
+        data = _as_floating(data)
         # Empty memory
         self.precision = 0
 
